@@ -187,11 +187,16 @@ def variable_to_string(variable_type, var_value):
     :param var_value: the variable value
     :return: a string of the value
     """
-    if variable_type.__name__ in ITER_LIKE_TYPES:
+    try:
+        type_name = variable_type.__name__
+    except BaseException:
+        # a type can refuse to tell its name (a metaclass property that raises); it is then neither of the kinds below
+        type_name = None
+    if type_name in ITER_LIKE_TYPES:
         # if interator like then make a custom string - we do not want to mess with iterators
         return 'Iterator of type: %s' % variable_type
     if variable_type is dict \
-            or variable_type.__name__ in LIST_LIKE_TYPES:
+            or type_name in LIST_LIKE_TYPES:
         # if we are a collection then we do not want to use built in string as this can be very
         # large, and quite pointless, instead we just get the size of the collection
         try:
@@ -236,12 +241,21 @@ def process_variable(var_collector: Collector, node: NodeValue) -> VariableRespo
     variable_id = VariableId(var_id, node.name, modifiers, node.original_name)
     # extract variable type
     variable_type = type(node.value)
-    # create a string value of the variable
-    variable_value_str, truncated = truncate_string(variable_to_string(variable_type, node.value),
-                                                    var_collector.max_string_length)
+    # a value we cannot describe (its type does not tell its name, its text is not a usable string) is recorded with a
+    # placeholder: it must not cost us the snapshot, nor leave an id behind that has no entry
+    try:
+        type_name = str(variable_type.__name__)
+    except BaseException:
+        type_name = 'unknown'
+    try:
+        # create a string value of the variable
+        variable_value_str, truncated = truncate_string(variable_to_string(variable_type, node.value),
+                                                        var_collector.max_string_length)
+    except BaseException:
+        variable_value_str, truncated = '<unprintable>@%s' % identity_hash_id, False
 
     # create a variable for the lookup
-    variable = Variable(str(variable_type.__name__), variable_value_str, identity_hash_id, [], truncated)
+    variable = Variable(type_name, variable_value_str, identity_hash_id, [], truncated)
     # add to lookup
     var_collector.append_variable(var_id, variable)
     # return result - and expand children
@@ -277,16 +291,15 @@ def process_child_nodes(
     :return:
     """
     variable_type = type(var_value)
-    # if the type is a type we do not want children from - return empty
-    if variable_type.__name__ in NO_CHILD_TYPES:
-        return []
-
     # if the depth is more than we are configured - return empty
     if frame_depth + 1 >= var_collector.max_var_depth:
         return []
 
     # scan the child based on type
     try:
+        # if the type is a type we do not want children from - return empty
+        if variable_type.__name__ in NO_CHILD_TYPES:
+            return []
         return find_children_for_parent(var_collector, VariableParent(var_collector, variable_id), var_value,
                                         variable_type)
     except BaseException:
